@@ -70,7 +70,7 @@ ErrsOf(bs) == LET f == SelectSeq(bs, LAMBDA b : b[1] = "exc") IN [i \in 1..Len(f
 (* Call alphabets.                                                         *)
 Outcomes == {"value", "rpcerr", "rpcerrk", "plain", "wrapped", "wraprpc", "wraptyped", "custom", "panic", "panicerr"}
 OneLog == { <<>>, << <<"INFO", "m1">> >>, << <<"DEBUG", "m1">>, <<"ERROR", "m2">> >> }
-UnaryCalls == [k : {"unary"}, m : {"u_val", "u_void"}, pm : {"ok"}, logs : OneLog, lvl : {"", "INFO"}, o : Outcomes]
+UnaryCalls == [k : {"unary"}, m : {"u_val", "u_void"}, pm : {"ok"}, logs : OneLog, lvl : {"", "EXCEPTION", "ERROR", "INFO"}, o : Outcomes]
               \cup [k : {"unary"}, m : {"u_val"}, pm : {"mismatch"}, logs : {<<>>}, lvl : {""}, o : {"value"}]
 PreSeqs(n) == UNION { [1..k -> {"emit", "emitlogs", "emitmeta"}] : k \in 0..n }
 ProdTerms == {"finish", "emitfinish", "error", "errlogs", "panic", "emitpanic", "noemit", "emit2"}
